@@ -178,7 +178,7 @@ def tail_pos(src, mask, body_open, body_close):
 
 class Edits:
     def __init__(self, src):
-        self.src = src; self.e = []
+        self.src = src; self.e = []; self.dropped = []
 
     def insert(self, pos, text, prio=0):
         self.e.append((pos, pos, text, prio, len(self.e)))
@@ -194,7 +194,7 @@ class Edits:
         for a, b, text, _, _ in es:
             if a < pos:
                 if a == b:
-                    continue
+                    self.dropped.append((a, text)); continue
                 raise ToolError('overlapping edits at %d' % a)
             parts.append((self.src[pos:a], pos)); parts.append((text, a if b > a else None)); pos = max(pos, b)
         parts.append((self.src[pos:hi], pos))
@@ -429,7 +429,10 @@ def apply_rewrites(src, mask, it, ed, stats, spec_entry):
     for (a0, b0, op0) in r7:
         inner = [x for x in r7b if x[0] <= a0 and b0 <= x[1]]
         if inner: continue
-        ed.replace(a0, b0, 'crate::spec::cast_f32(%s)' % op0)
+        # non-destructive: edits inside the operand (loop overlays of an R9-desugared adapter ...) must survive
+        mm = re.search(r'\s+as\s+f32$', src[a0:b0])
+        ed.insert(a0, 'crate::spec::cast_f32(', prio=-30)
+        ed.replace(a0 + mm.start(), b0, ')')
         stats['R7_cast_f32'] = stats.get('R7_cast_f32', 0) + 1
     for (s0, e0, end0, wfn) in r7b:
         ed.replace(s0, end0, 'crate::spec::%s(%s)' % (wfn, r7_rewrite_string(src[s0:e0])))
@@ -560,6 +563,92 @@ def one_line(src, mask, lo, hi):
     return re.sub(r'\s+', ' ', ''.join(out)).strip()
 
 
+def _close_paren(src, mask, po):
+    """index just past the parenthesis that closes the one opened at src[po]"""
+    d = 0; i = po
+    while i < len(src):
+        if mask[i] == ord('c'):
+            if src[i] in '([{': d += 1
+            elif src[i] in ')]}':
+                d -= 1
+                if d == 0: return i + 1
+        i += 1
+    return None
+
+
+def r9_desugar_iterators(srcs, stats):
+    """R9: the slice-iterator adapters Verus cannot translate are replaced by the loops they stand for (std's documented semantics of
+    enumerate / fold / filter+count / position / for_each on a slice iterator; E is a place expression made of identifiers and field
+    accesses, closures are single expressions over their parameters).  Every replacement stays on the lines of the original text.
+      a  for (I, X) in E.iter().enumerate() {      =>  for I in 0..E.len() { let X = &E[I];
+      b  E.iter().fold(INIT, |A, X| BODY)          =>  ({ let mut A = INIT; for X in E.iter() { A = BODY; } A })
+      d  E.iter().filter(|&N| COND).count()        =>  ({ let mut r9_c: usize = 0; for N in E.iter() { if COND { r9_c += 1; } } r9_c })
+      e  E.iter_mut().for_each(|X| *X OP= RHS)     =>  for r9_k in 0..E.len() { E[r9_k] OP= RHS; }          (statement position)
+      f  E.iter().position(|X| BODY)               =>  ({ let mut r9_p: Option<usize> = None; for r9_k in 0..E.len() { let X = &E[r9_k];
+                                                          if r9_p.is_none() && (BODY) { r9_p = Some(r9_k); } } r9_p })
+    Test modules are left alone.  The bounded Kani harnesses of the thorough tier run the ORIGINAL adapter code against the same facts."""
+    PLACE = r'(?<![\w.])((?:\*?[A-Za-z_]\w*)(?:\.[A-Za-z_]\w*)*)'
+    out = {}
+    for m_, src in srcs.items():
+        mask = rsitems.scan_tokens(src)
+        its = rsitems.items(src, mask=mask)
+        test_spans = [(x['start'], x['end']) for x in its if x['kind'] == 'mod' and is_cfg_test(src, x)]
+        def live(a): return mask[a] == ord('c') and not any(lo <= a < hi for lo, hi in test_spans)
+        edits = []      # (a, b, text)
+        def nl(a, b): return '\n' * src.count('\n', a, b)
+        # a: enumerate in a for header
+        for x in re.finditer(r'\bfor\s*\(\s*(\w+)\s*,\s*(\w+)\s*\)\s+in\s+' + PLACE + r'\.iter\(\)\.enumerate\(\)\s*\{', src):
+            if not live(x.start()): continue
+            I, X, E = x.group(1), x.group(2), x.group(3)
+            Iv = I if I != '_' else 'r9_i'
+            edits.append((x.start(), x.end(), 'for %s in 0..%s.len() { let %s = &%s[%s];' % (Iv, E, X, E, Iv) + nl(x.start(), x.end()), 'R9a_enumerate'))
+        # b/d/f: expression forms
+        for x in re.finditer(PLACE + r'\.iter\(\)\s*\.\s*(fold|filter|position)\s*\(', src):
+            if not live(x.start()): continue
+            E, kind = x.group(1), x.group(2)
+            po = x.end() - 1; pc = _close_paren(src, mask, po)
+            if pc is None: continue
+            inner = src[po + 1:pc - 1]
+            if kind == 'fold':
+                mm = re.match(r'\s*(.+?)\s*,\s*\|\s*(\w+)\s*,\s*(\w+)\s*\|\s*(.+?)\s*$', inner, re.S)
+                if not mm or '|' in mm.group(4) or '{' in mm.group(4): continue
+                INIT, A, X, BODY = mm.groups()
+                edits.append((x.start(), pc, '({ let mut %s = %s; for %s in %s.iter() { %s = %s; } %s })' % (A, INIT, X, E, A, one_line(BODY, rsitems.scan_tokens(BODY), 0, len(BODY)), A) + nl(x.start(), pc), 'R9b_fold'))
+            elif kind == 'position':
+                mm = re.match(r'\s*\|\s*(\w+)\s*\|\s*(.+?)\s*$', inner, re.S)
+                if not mm or '|' in mm.group(2) or '{' in mm.group(2): continue
+                X, BODY = mm.groups()
+                edits.append((x.start(), pc, '({ let mut r9_p: Option<usize> = None; for r9_k in 0..%s.len() { let %s = &%s[r9_k]; if r9_p.is_none() && (%s) { r9_p = Some(r9_k); } } r9_p })'
+                              % (E, X, E, one_line(BODY, rsitems.scan_tokens(BODY), 0, len(BODY))) + nl(x.start(), pc), 'R9f_position'))
+            else:
+                mm = re.match(r'\s*\|\s*&\s*(\w+)\s*\|\s*(.+?)\s*$', inner, re.S)
+                m2 = re.match(r'\s*\.\s*count\s*\(\s*\)', src[pc:])
+                if not mm or not m2 or '|' in mm.group(2) or '{' in mm.group(2): continue
+                N, COND = mm.groups()
+                edits.append((x.start(), pc + m2.end(), '({ let mut r9_c: usize = 0; for %s in %s.iter() { if %s { r9_c += 1; } } r9_c })'
+                              % (N, E, one_line(COND, rsitems.scan_tokens(COND), 0, len(COND))) + nl(x.start(), pc + m2.end()), 'R9d_filter_count'))
+        # e: for_each statement
+        for x in re.finditer(PLACE + r'\.iter_mut\(\)\s*\.\s*for_each\s*\(', src):
+            if not live(x.start()): continue
+            E = x.group(1)
+            po = x.end() - 1; pc = _close_paren(src, mask, po)
+            if pc is None: continue
+            mm = re.match(r'\s*\|\s*(\w+)\s*\|\s*\*\s*(\w+)\s*(\+|-|\*|/)=\s*(.+?)\s*$', src[po + 1:pc - 1], re.S)
+            m2 = re.match(r'\s*;', src[pc:])
+            if not mm or not m2 or mm.group(1) != mm.group(2) or re.search(r'\b%s\b' % re.escape(mm.group(1)), mm.group(4)): continue
+            edits.append((x.start(), pc + m2.end(), 'for r9_k in 0..%s.len() { %s[r9_k] %s= %s; }' % (E, E, mm.group(3), mm.group(4)) + nl(x.start(), pc + m2.end()), 'R9e_for_each'))
+        edits.sort()
+        if any(edits[i][1] > edits[i + 1][0] for i in range(len(edits) - 1)):
+            out[m_] = src; continue     # nested adapters: leave the module as it is (its functions stay outside Verus)
+        pieces = []; pos = 0
+        for a, b, t, k in edits:
+            pieces.append(src[pos:a]); pieces.append(t); pos = b
+            stats[k] = stats.get(k, 0) + 1
+        pieces.append(src[pos:])
+        out[m_] = ''.join(pieces)
+    return out
+
+
 def r8_inline_new_helpers(srcs, known_units, stats):
     """R8: a free function the specification has never seen (absent from spec/known_units.txt) that is pure and straight-line
     (no `&mut` parameter, no generics, no return / ? / loop / unsafe / closure, not recursive) and is only ever *called*, from
@@ -674,6 +763,7 @@ def assemble(repo, spec, rows=None, canary=None, opts=None):
     reg = registry(srcs)
     ROWS = getattr(rows, 'ROWS', {}) if rows else {}
     stats = {k: 0 for k in REWRITE_STATS_KEYS}
+    srcs = r9_desugar_iterators(srcs, stats)
     r8_done = {}
     if opts.get('known_units'):
         srcs, r8_done = r8_inline_new_helpers(srcs, opts['known_units'], stats)
@@ -970,6 +1060,11 @@ def assemble(repo, spec, rows=None, canary=None, opts=None):
             ed.insert(a, '/*U<%d*/' % idx, prio=-5)
             ed.insert(b, '/*U>*/', prio=5)
         text, lm = ed.apply()
+        for a, t in ed.dropped:
+            # an overlay insertion that fell inside a replaced range would silently vanish: name the function and give up on it
+            owner = next((units[idx].path for idx, x, y in ctx['marks'] if x <= a < y), None)
+            if not t.startswith('/*U'):
+                raise ToolError('an overlay insertion of %s fell inside a rewritten range and was dropped: %r' % (owner, t.strip()[:80]))
         if not text.endswith('\n'):
             text += '\n'; lm.append(None)
         emit('pub mod %s {\n' % mod)
